@@ -509,16 +509,39 @@ func genC13(c *w1Case, r *simrt.Rng) {
 func genC14(c *w1Case, r *simrt.Rng) {
 	acts := []string{"panic", "octave_up", "octave_down", "channel_up"}
 	o := genOpts{nKeys: [2]int{2, 6}, nMaps: [2]int{1, 2}, notePool: intsRange(40, 80), actions: acts, exitLen: r.Range(0, 3), exitShared: r.Chance(0.7), defaults: r.Chance(0.5),
-		unmapProb: 0.2, remapProb: 0.2, handlers: 1}
+		unmapProb: 0.2, remapProb: 0.2, handlers: r.Range(1, 2), edgeKeys: r.Chance(0.4)}
 	if r.Chance(0.1) {
 		o.exitLen = -1
 	}
 	c.d = baseDesc(r, o)
 	c.state = true
 	g := newScriptGen(r, c.d)
-	// make the exit keys pressable by the generator even when they are neither notes nor actions
+	// make the exit keys pressable by the generator even when they are neither notes nor actions; the keys of
+	// one sequence may sit on different sub-handlers of the device (ALT on the main handler, a media key on
+	// "Consumer Control")
 	for _, k := range c.d.Exit {
-		g.handler[k.Code] = 0
+		if _, ok := g.handler[k.Code]; !ok {
+			g.handler[k.Code] = r.Intn(len(c.d.Handlers))
+		}
+	}
+	for _, a := range c.d.Actions {
+		if _, ok := g.handler[a.Code]; !ok {
+			g.handler[a.Code] = r.Intn(len(c.d.Handlers))
+		}
+	}
+	// keys that were already held when the device was opened: the first thing the kernel reports is a release
+	if r.Chance(0.2) {
+		for i := 0; i < r.Range(1, 2); i++ {
+			var code uint16
+			if len(c.d.Exit) > 0 && r.Chance(0.7) {
+				code = c.d.Exit[r.Intn(len(c.d.Exit))].Code
+			} else if len(g.noteK) > 0 {
+				code = g.noteK[r.Intn(len(g.noteK))].Code
+			} else {
+				continue
+			}
+			g.out = append(g.out, model.Event{Kind: "key", Handler: g.handler[code], Code: code, Value: 0})
+		}
 	}
 	n := r.Range(8, 50)
 	for i := 0; i < n; i++ {
